@@ -19,6 +19,7 @@ import (
 	"mcverif/props/c14"
 	"mcverif/props/c15"
 	"mcverif/props/c16"
+	"mcverif/props/c18"
 )
 
 var Registry = map[string]engine.Spec{
@@ -38,10 +39,12 @@ var Registry = map[string]engine.Spec{
 	"C14": c14.Spec,
 	"C15": c15.Spec,
 	"C16": c16.Spec,
+	"C18": c18.Spec,
 }
 
 // Aux are helper entry points run in fresh child processes by some checks.
 var Aux = map[string]func(args []string) int{
 	"c07ref":   c07.Aux,
 	"c04probe": c04.Aux,
+	"c18hist":  c18.Aux,
 }
